@@ -109,6 +109,9 @@ type harnessEvidence struct {
 	Unconfirmed    int                    `json:"unconfirmed_candidates"`
 	Confirmed      int                    `json:"confirmed_violations"`
 	Nondet         map[string]int64       `json:"nondeterminism_sources,omitempty"`
+	DomDecided     int64                  `json:"byte_domain_decisions"`
+	DomRechecked   int64                  `json:"byte_domain_decisions_rechecked_by_z3"`
+	DomForks       int64                  `json:"byte_domain_forks"`
 	FunctionsRun   []string               `json:"functions_encoded"`
 }
 
@@ -184,7 +187,8 @@ func cmdRun(args []string) int {
 		he := harnessEvidence{Harness: hr.Harness, Params: hr.Params, Paths: ex.Paths, Decisions: ex.Decisions, Instructions: ex.Steps,
 			Queries: ex.Queries, Sat: ex.SatN, UnsatPruned: ex.UnsatN, Unknown: ex.UnkN, SolverTime: ex.SolverTime.Seconds(),
 			Ends: ex.Ends, Cuts: ex.Cuts, EngineErrors: ex.EngineErrs, Reach: ex.Reach, Assertions: ex.Asserts, AssumeKills: ex.AssumeKills,
-			Truncated: ex.Truncated, Nondet: ex.Nondet, FunctionsRun: coveredFunctions(ex)}
+			Truncated: ex.Truncated, Nondet: ex.Nondet, FunctionsRun: coveredFunctions(ex),
+			DomDecided: ex.domDecided.Load(), DomRechecked: ex.domRechecked.Load(), DomForks: ex.domForks.Load()}
 
 		ignore := map[string]bool{}
 		for _, id := range hr.Ignore {
